@@ -226,9 +226,11 @@ CallAlpha ==
       mk(kind, obj, q, uc) == [kind |-> kind, obj |-> obj, q |-> q, useCond |-> uc,
                                nt |-> aux.nt, numofq |-> aux.numofq, toff |-> aux.toff]
   IN  << mk("relax", 1, qa, 0), mk("relax", 1, qb, 1), mk("s4", 1, qa, 1), mk("relax", 2, qa, 2),
-         mk("s4", 2, qa, 0), mk("relax", 2, qb, 0), mk("relax", 1, qa, 2), mk("s4", 1, qa, 0) >>
+         mk("s4", 2, qa, 0), mk("relax", 2, qb, 0), mk("relax", 1, qa, 2), mk("s4", 1, qa, 0), mk("relax", 1, qb, 0) >>
+\* every order repeats an earlier call after calls that differ from it in the wavenumber only (1/9, 2/7'), in the
+\* selection only (1/7, 2/9), in the routine (3, 5, 8) or in the object (4, 6)
 Orders == << <<1, 2, 1, 3, 1>>, <<2, 1, 3, 2, 4, 2>>, <<1, 3, 7, 8, 1>>, <<4, 1, 5, 2, 4>>,
-             <<3, 1, 8, 6, 1, 3>>, <<2, 7, 2, 6, 5, 2>>, <<1, 4, 1, 4, 2, 1>> >>
+             <<3, 1, 8, 6, 1, 3>>, <<2, 7, 2, 6, 5, 2>>, <<1, 4, 1, 4, 2, 1>>, <<1, 9, 1, 2, 9>>, <<9, 2, 3, 9, 1>> >>
 SesCalls ==
   IF aux.kind # "sess" THEN << >>
   ELSE LET ord == Pick(Orders, aux.order)
